@@ -427,12 +427,14 @@ def check_model(res, model, comp, facet, cell):
             T1 = model.T
             B = _dense(T1.get_matrix())
             res.evaluations += 1
-            if not (B.shape == A.T.shape and close(B, A.T, 1e-12)):
+            # derived relation: with faithful matrices T.get_matrix() == get_matrix()^T iff adjoint == forward^T,
+            # so it is only judged when the inner-product identity itself holds (one defect, one signature)
+            if adj_ok and gm_ok and not (B.shape == A.T.shape and close(B, A.T, 1e-9)):
                 res.fail("C07|LinearModel|T.get_matrix|cached,backing=%s" % bk,
                          "T.get_matrix() != get_matrix()^T")
             # the transpose of the transpose is the model again (matrix level)
             C = _dense(T1.T.get_matrix())
-            if not (C.shape == A.shape and close(C, A, 1e-12)):
+            if adj_ok and gm_ok and not (C.shape == A.shape and close(C, A, 1e-9)):
                 res.fail("C07|LinearModel|T.T.get_matrix|backing=%s" % bk,
                          "T.T.get_matrix() != get_matrix()")
         except Exception as e:
